@@ -30,7 +30,7 @@ def build(rng, dtls):
             L = (0 if ct == 23 else 1 if ct == 20 else 2) if mode < .08 else rng.choice((16383, 16384, 16385, 16639, 16640))
             body = b'\x01' * L if ct == 20 else (bytes([1, rng.randrange(256)]) if ct == 21 else b'')
             off = w.pos()
-            ep, sq = rng.randrange(65536), rng.randrange(2 ** 48)
+            ep, sq = rng.choice((0, 1, 1, 2, 3, 65535, rng.randrange(65536))), rng.randrange(2 ** 48)
             w.raw(bytes([ct]) + ver.to_bytes(2, 'big') + ((ep.to_bytes(2, 'big') + sq.to_bytes(6, 'big')) if dtls else b'') + L.to_bytes(2, 'big') + body)
             msgs = ['CCS'] * L if ct == 20 else ['(Alert 1 %d)' % body[1]] if ct == 21 else ['(App +0)']
             if dtls:
@@ -71,12 +71,27 @@ def build(rng, dtls):
     return op, buf, expect, kind, n
 
 
+def many_minimal(rng, dtls, n):
+    """n records of the smallest sizes in one buffer (as many as fit a 64 KiB datagram and more): all must come back"""
+    w = core.Writer()
+    vals = []
+    for k in range(n):
+        ct = 20 if (k * 7 + n) % 3 else 21
+        body = b'\x01' if ct == 20 else bytes([1, k % 256])
+        ver, ep, sq = 0xfefd if dtls else 0x0303, k % 4, k
+        w.raw(bytes([ct]) + ver.to_bytes(2, 'big') + ((ep.to_bytes(2, 'big') + sq.to_bytes(6, 'big')) if dtls else b'') + len(body).to_bytes(2, 'big') + body)
+        m = 'CCS' if ct == 20 else '(Alert 1 %d)' % (k % 256)
+        vals.append('(DPlain (DHdr %d %d %d %d %d) [(M 0 %s)])' % (ct, ver, ep, sq, len(body), m) if dtls else '(Plain (Hdr %d %d %d) [%s])' % (ct, ver, len(body), m))
+    return ('dtls_records' if dtls else 'tls_many'), w.bytes(), 'ok 0 ' + core.lst(vals), 'none', n
+
+
 def run(ctx):
     core.build_harness()
     ok = common.lean_step(ctx, MODULES, audit=['TlsModel.Props.C16'])
     rng = ctx.rng
     n = 12000 if ctx.thorough else 1500
     cases = [build(rng, dtls) for dtls in (False, True) for _ in range(n)]
+    cases += [many_minimal(rng, dtls, k) for dtls in (False, True) for k in ((1000, 2621, 2622, 4681) if not ctx.thorough else (1000, 2048, 2621, 2622, 4096, 4681, 8192))]
     lines = ['%s %s' % (c[0], core.hexs(c[1])) for c in cases]
     single = [('dtls_record' if c[0] == 'dtls_records' else 'tls_plaintext') + ' ' + core.hexs(c[1]) for c in cases]
     alias = ['tls_parser ' + core.hexs(c[1]) for c in cases if c[0] == 'tls_many']
